@@ -40,7 +40,7 @@ def observe(path, layout, sign, dec, delimiter, header, source):
     if RC.LAYOUTS[layout]['template']:
         src['columns'] = {'description': RC.LAYOUTS[layout]['template']}
     if delimiter != ',':
-        src['delimiter'] = RC.regex_for(layout) if delimiter == 'regex' else \
+        src['delimiter'] = RC.regex_for(layout, open_ended=(len(sign) + int(header) + len(source)) % 2 == 1) if delimiter == 'regex' else \
             ('\t' if delimiter == 'tab' and (len(layout) + len(sign) + int(header)) % 2 else delimiter)
     spec = resolve_source_format(src)['_format_spec']
     txns = parse_generic_csv(path, spec, [], source_name=source, decimal_separator='.' if dec == 'dot' else ',')
